@@ -11,6 +11,8 @@ import (
 	"strconv"
 	"strings"
 	"time"
+
+	"github.com/tencent/goom/internal/simhook"
 )
 
 // 日志级别定义
@@ -255,6 +257,7 @@ func Consolef(level int, format string, a ...interface{}) {
 // Consolefc 打印日志到控制台
 func Consolefc(level int, format string, callerFn CallerFn, a ...interface{}) {
 	if level <= ConsoleLevel {
+		simhook.Yield(simhook.SiteLogConsole, 0)
 		line := layoutf(level, format, callerFn, a...)
 		os.Stdout.Write(line)
 	}
